@@ -582,9 +582,6 @@ Qed.
 Lemma RunInv_nil strict w regs : RunInv strict w regs [].
 Proof. intros e x []. Qed.
 
-(* the executable domain of C14 is that of C07 *)
-Definition dom14 (ops : list op) : bool := dom07 ops.
-
 Theorem c07_spec_strict ops : dom07 ops = true -> mixed_kinds_registered ops (World.run world0 ops) = false ->
   spec_c07 ops (World.run world0 ops) = true.
 Proof.
@@ -604,34 +601,116 @@ Proof.
   - left. apply c07_spec_strict; auto.
 Qed.
 
-Lemma walk_weaken (chk chk' : world -> reginfo -> list MetricFamily -> bool) (same same' : list MetricFamily -> list MetricFamily -> bool) :
-  (forall w x f, chk w x f = true -> chk' w x f = true) -> (forall a b, same a b = true -> same' a b = true) ->
-  forall ops w regs rn obs, walk chk same w regs rn ops obs = true -> walk chk' same' w regs rn ops obs = true.
+(* ====================================================================================== *)
+(* 6. Non-vacuity: generated scenarios are inside the domain.                              *)
+(* ====================================================================================== *)
+(* tools/p_C07.py many_labels_scenario (seed 7) *)
+Definition ex_many_labels : list op :=
+  [(OpCounter NF (mkOpts [] [] [97] [104] (amap_of [([107],[49])]) []));
+   (OpIncBy 0%nat (VF (bits2f 0x4014000000000000)));
+   (OpRegistry (Some [112]) (Some [([122;111;110;101],[121]);([99;50],[50]);([99;49],[49]);([101;110;118],[120])]));
+   (OpRegistry (Some [112]) (Some [([99;50],[50]);([101;110;118],[120]);([122;111;110;101],[121]);([99;49],[49])]));
+   (OpRegistry (Some [112]) (Some [([99;50],[50]);([99;49],[49]);([122;111;110;101],[121]);([101;110;118],[120])]));
+   (OpRegister 1%nat 0%nat);
+   (OpRegister 2%nat 0%nat);
+   (OpRegister 3%nat 0%nat);
+   (OpGather 1%nat);
+   (OpGather 2%nat);
+   (OpGather 3%nat)].
+(* tools/p_C07.py c14_witness(True): the recorded finding *)
+Definition ex_c14_witness : list op :=
+  [(OpCounter NF (mkOpts [] [] [120] [104] (amap_of [([107],[49])]) []));
+   (OpGauge NF (mkOpts [] [] [120] [104] (amap_of [([107],[50])]) []));
+   (OpIncBy 0%nat (VF (bits2f 0x4014000000000000)));
+   (OpSet 1%nat (VF (bits2f 0x401c000000000000)));
+   (OpRegistry None None);
+   (OpRegistry None None);
+   (OpRegister 2%nat 0%nat);
+   (OpRegister 2%nat 1%nat);
+   (OpRegister 3%nat 1%nat);
+   (OpRegister 3%nat 0%nat);
+   (OpGather 2%nat);
+   (OpGather 3%nat)].
+(* tools/p_C07.py GatherGen(random.Random(129)).run(): histogram vectors and a counter vector with children,
+   two registries with four common labels, all registration orders, an unregistration, four gathers *)
+Definition ex_gathergen : list op :=
+  [(OpHistVec (mkHOpts (mkOpts [] [] [97;95] [104] (amap_of [([97],[97])]) []) [(bits2f 0x3f747ae147ae147b);(bits2f 0x3fe0000000000000);(bits2f 0x3ff0000000000000);(bits2f 0x4024000000000000)]) [[119]]);
+   (OpHistVec (mkHOpts (mkOpts [] [] [97;95] [104] (amap_of [([97],[])]) []) [(bits2f 0x4024000000000000);(bits2f 0x4059000000000000);(bits2f 0x7ff0000000000000)]) [[119]]);
+   (OpCounterVec NU (mkOpts [] [] [109;50] [109;117;108;116;105;10;108;105;110;101] (amap_of [([97],[48])]) []) [[118]]);
+   (OpHistVec (mkHOpts (mkOpts [] [] [97;66] [109;117;108;116;105;10;108;105;110;101] (amap_of [([95;99],[98;99])]) []) [(bits2f 0xbff0000000000000);(bits2f 0x3f747ae147ae147b);(bits2f 0x3fb999999999999a)]) [[86]]);
+   (OpWith 0%nat [[97]]);
+   (OpWithMap 1%nat [([119],[97;98])]);
+   (OpWithMap 1%nat [([119],[50])]);
+   (OpWithMap 1%nat [([119],[120;32;121])]);
+   (OpWith 2%nat [[49]]);
+   (OpWithMap 2%nat [([118],[105;118;108;116;108;100;103;109;111;99;116;121;98;100])]);
+   (OpWith 3%nat [[66]]);
+   (OpObserve 4%nat (bits2f 0x40fe240c9fbe76c9));
+   (OpObserve 6%nat (bits2f 0x4059000000000000));
+   (OpObserve 10%nat (bits2f 0xbfb9999999999999));
+   (OpObserve 10%nat (bits2f 0x3ff0000000000000));
+   (OpRegistry None (Some [([90],[10;34;99;92]);([100;99],[]);([99;49;48],[120;32;121]);([95;114],[233])]));
+   (OpRegistry None (Some [([100;99],[]);([90],[10;34;99;92]);([95;114],[233]);([99;49;48],[120;32;121])]));
+   (OpRegister 11%nat 1%nat);
+   (OpRegister 11%nat 3%nat);
+   (OpRegister 11%nat 2%nat);
+   (OpRegister 11%nat 0%nat);
+   (OpRegister 12%nat 2%nat);
+   (OpRegister 12%nat 1%nat);
+   (OpRegister 12%nat 0%nat);
+   (OpRegister 12%nat 3%nat);
+   (OpGather 12%nat);
+   (OpGather 11%nat);
+   (OpUnregister 11%nat 3%nat);
+   (OpUnregister 12%nat 3%nat);
+   (OpGather 12%nat);
+   (OpGather 11%nat)]
+.
+
+Example ex_many_labels_in_domain :
+  dom07 ex_many_labels = true /\ mixed_kinds_registered ex_many_labels (World.run world0 ex_many_labels) = false
+  /\ spec_c07 ex_many_labels (World.run world0 ex_many_labels) = true.
+Proof. split; [vm_compute; reflexivity|]. split; [vm_compute; reflexivity|]. apply c07_spec_strict; vm_compute; reflexivity. Qed.
+Example ex_gathergen_in_domain :
+  dom07 ex_gathergen = true /\ mixed_kinds_registered ex_gathergen (World.run world0 ex_gathergen) = false
+  /\ length (filter is_fams (World.run world0 ex_gathergen)) = 4%nat.
+Proof. split; [vm_compute; reflexivity|]. split; vm_compute; reflexivity. Qed.
+(* the witness of the known finding is inside the domain and in the known class: the strict spec
+   fails on the model, the delimited one holds (by the theorem, and by computation) *)
+Example ex_c14_witness_in_domain :
+  dom07 ex_c14_witness = true /\ mixed_kinds_registered ex_c14_witness (World.run world0 ex_c14_witness) = true
+  /\ spec_c07 ex_c14_witness (World.run world0 ex_c14_witness) = false
+  /\ spec_c14 ex_c14_witness (World.run world0 ex_c14_witness) = false
+  /\ known_mixed_kinds ex_c14_witness (World.run world0 ex_c14_witness) = true.
+Proof. repeat split; vm_compute; reflexivity. Qed.
+
+(* ====================================================================================== *)
+(* 7. What the domain's compatibility condition means.                                     *)
+(* ====================================================================================== *)
+(* For descriptors built by Desc::new from const-label maps, [desc_compat] says exactly that the
+   byte strings hashed into the two dimension hashes are equal.  RegistryCore::register accepts a
+   descriptor under a known name only if the dimension HASHES are equal; so a registration that
+   the model accepts and that violates [register_compat] exhibits an FNV-1a collision between two
+   different dimension pre-images: the domain condition is "no such collision among same-name
+   descriptors registered in one registry". *)
+Lemma cn_cnames consts d : d_const_pairs d = cpairs consts -> cn d = cnames consts.
 Proof.
-  intros Hc Hs. induction ops as [|o ops IH]; intros w regs rn obs; [auto|]. destruct obs as [|ob obs]; [auto|].
-  destruct (classic_gather o) as [[r ->]|Hn].
-  - cbn [walk]. destruct ob; auto. destruct (ri_find r regs) as [x|]; auto.
-    rewrite !andb_true_iff. intros [[A B] C]. repeat split; auto.
-    rewrite forallb_forall in *. intros e He. specialize (B e He). destruct (gkey_eqb (fst e) (key_of x)); cbn [negb orb] in *; auto.
-  - rewrite !walk_nongather by auto. apply IH.
+  intros E. unfold cn, cnames. rewrite E. unfold cpairs.
+  change lp_leb with (fun a b => str_leb (lp_name a) (lp_name b)). rewrite (sort_by_map' lp_name str_leb), map_map. reflexivity.
 Qed.
-Lemma same_types_of_eqb a : forall b, list_eqb mf_eqb a b = true -> same_types a b = true.
+Theorem desc_compat_iff_dim_bytes fq1 help1 vars1 consts1 d1 b1 fq2 help2 vars2 consts2 d2 b2 :
+  NoDup (map fst consts1) -> NoDup (map fst consts2) -> wf_str help1 -> wf_str help2 ->
+  desc_new fq1 help1 vars1 consts1 = Some d1 -> desc_new fq2 help2 vars2 consts2 = Some d2 ->
+  desc_dim_bytes help1 vars1 consts1 = Some b1 -> desc_dim_bytes help2 vars2 consts2 = Some b2 ->
+  (desc_compat d1 d2 = true <-> b1 = b2).
 Proof.
-  unfold same_types. induction a as [|x a IH]; destruct b as [|y b]; cbn; auto.
-  unfold mf_eqb at 1. rewrite !andb_true_iff. intros [[[[A B] C] D] E]. repeat split; auto.
-Qed.
-Theorem c14_spec_strict ops : dom14 ops = true -> mixed_kinds_registered ops (World.run world0 ops) = false ->
-  spec_c14 ops (World.run world0 ops) = true.
-Proof.
-  intros Hd Hm. destruct (walk_model true ops world0 [] [] [] [] (INV0 true) (RunInv_nil _ _ _) Hd (fun _ => Hm)) as [A B].
-  unfold spec_c14. apply andb_true_iff. split.
-  - apply (B eq_refl).
-  - eapply walk_weaken; [| |exact A]; auto. apply same_types_of_eqb.
-Qed.
-Theorem c14_spec_model ops : dom14 ops = true ->
-  spec_c14 ops (World.run world0 ops) = true \/ known_c14 ops (World.run world0 ops) = true.
-Proof.
-  intros Hd. destruct (mixed_kinds_registered ops (World.run world0 ops)) eqn:Hm.
-  - right. unfold known_c14. apply c07_known_delimited; auto.
-  - left. apply c14_spec_strict; auto.
+  intros N1 N2 W1 W2 H1 H2 B1 B2.
+  destruct (desc_new_wf _ _ _ _ _ N1 H1) as (_ & _ & Eh1 & Ev1 & Ec1). destruct (desc_new_wf _ _ _ _ _ N2 H2) as (_ & _ & Eh2 & Ev2 & Ec2).
+  apply desc_new_inv in H1 as (_ & _ & F1 & _). apply desc_new_inv in H2 as (_ & _ & F2 & _).
+  rewrite desc_compat_spec, (desc_dim_bytes_iff help1 vars1 consts1 b1 help2 vars2 consts2 b2 W1 W2 N1 N2 F1 F2 B1 B2).
+  rewrite Eh1, Eh2, Ev1, Ev2, (cn_cnames consts1 d1 Ec1), (cn_cnames consts2 d2 Ec2). split.
+  - intros (A & B & C). split; auto. split.
+    + eapply Permutation_trans; [apply Permutation_sym, cnames_perm|]. rewrite B. apply cnames_perm.
+    + eapply Permutation_trans; [apply Permutation_sym, (sort_by_perm str_leb)|]. rewrite C. apply sort_by_perm.
+  - intros (A & B & C). split; auto. split; apply sort_strs_perm_inv; auto.
 Qed.
